@@ -31,6 +31,7 @@ Ltac peg :=
       | |- Runs _ _ (ERange _ _) _ [] _ _ => eapply runs_range_nil
       | |- Runs _ _ ESoi _ _ _ _ => eapply runs_soi
       | |- Runs _ _ EEoi _ [] _ _ => eapply runs_eoi_ok
+      | |- Runs _ _ EEoi _ (_ :: _) _ _ => eapply runs_eoi_fail
       | |- Runs _ _ ESkip AAtomic _ _ _ => eapply runs_skip_atomic
       | |- Runs _ _ ESkip ACompound _ _ _ => eapply runs_skip_compound
       | |- Runs _ _ ESkip ANonAtomic _ _ _ => eapply runs_skip_none; change (g_ws grammar) with R_WHITESPACE; peg
